@@ -279,10 +279,13 @@ theorem exit_eq (cfg : Config) (ctx : Ctx) (s : State) (exit : SignedVoluntaryEx
 
 /-! ### frame: what the proposer of the slot depends on -/
 
-/-- `s'` has the same slot and randao history as `s`, the same number of validators, and every validator has
-the same effective balance and the same activity in the current epoch. -/
+/-- `s'` has the same slot and the same proposer seed of the current epoch as `s` (the randao mix `MIN_SEED_LOOKAHEAD + 1`
+epochs back), the same number of validators, and every validator has the same effective balance and the same activity
+in the current epoch. -/
 def SameDuties (cfg : Config) (s s' : State) : Prop :=
-  s'.slot = s.slot ∧ s'.randao_mixes = s.randao_mixes ∧ s'.validators.length = s.validators.length ∧
+  s'.slot = s.slot ∧
+  get_seed cfg s' (get_current_epoch cfg s) DOMAIN_BEACON_PROPOSER = get_seed cfg s (get_current_epoch cfg s) DOMAIN_BEACON_PROPOSER ∧
+  s'.validators.length = s.validators.length ∧
   ∀ (i : Nat) (v v' : Validator), s.validators[i]? = some v → s'.validators[i]? = some v' →
     v'.effective_balance = v.effective_balance ∧
     is_active_validator v' (get_current_epoch cfg s) = is_active_validator v (get_current_epoch cfg s)
@@ -347,12 +350,65 @@ theorem proposer_frame (cfg : Config) (s s' : State) (h : SameDuties cfg s s') :
     Block.get_beacon_proposer_index cfg s' = Block.get_beacon_proposer_index cfg s := by
   have hcur : get_current_epoch cfg s' = get_current_epoch cfg s := by
     unfold get_current_epoch; rw [h.1]
-  have hseed : get_seed cfg s' (get_current_epoch cfg s) DOMAIN_BEACON_PROPOSER = get_seed cfg s (get_current_epoch cfg s) DOMAIN_BEACON_PROPOSER := by
-    unfold get_seed get_randao_mix; rw [h.2.1]
+  have hseed : get_seed cfg s' (get_current_epoch cfg s) DOMAIN_BEACON_PROPOSER = get_seed cfg s (get_current_epoch cfg s) DOMAIN_BEACON_PROPOSER :=
+    h.2.1
   unfold Block.get_beacon_proposer_index
   simp only [hcur, active_indices_frame cfg s s' h, h.1, hseed,
     compute_proposer_index_frame cfg s s' (fun i v v' h1 h2 => (h.2.2.2 i v v' h1 h2).1) h.2.2.1]
 
+
+/-- the same randao history gives the same seed -/
+theorem seed_of_mixes (cfg : Config) (s s' : State) (e : Nat) (d : Bytes) (h : s'.randao_mixes = s.randao_mixes) :
+    get_seed cfg s' e d = get_seed cfg s e d := by
+  unfold get_seed get_randao_mix; rw [h]
+
+theorem mod_shift_ne (e n d : Nat) (hn : 0 < n) (hd : d % n ≠ 0) (hle : d ≤ e + n) : (e + n - d) % n ≠ e % n := by
+  intro h
+  have h1 : (e + n - d + d) % n = (e + d) % n := by
+    rw [Nat.add_mod, h, ← Nat.add_mod]
+  have h2 : e + n - d + d = e + n := by omega
+  rw [h2, Nat.add_mod_right] at h1
+  -- e % n = (e + d) % n
+  rw [Nat.add_mod e d n] at h1
+  have hr := Nat.mod_lt e hn
+  have ht := Nat.mod_lt d hn
+  generalize e % n = r at *
+  generalize d % n = t at *
+  by_cases hlt : r + t < n
+  · rw [Nat.mod_eq_of_lt hlt] at h1; omega
+  · have : (r + t) % n = r + t - n := by
+      rw [Nat.mod_eq_sub_mod (by omega)]
+      exact Nat.mod_eq_of_lt (by omega)
+    rw [this] at h1; omega
+
+/-- mixing the RANDAO reveal into the current epoch's mix leaves the proposer seed of the current epoch alone (it
+reads the mix `MIN_SEED_LOOKAHEAD + 1` epochs back, another entry unless that distance is a multiple of the vector) -/
+theorem seed_set_frame (cfg : Config) (s s' : State) (x : Bytes) (d : Bytes)
+    (hlook : (cfg.MIN_SEED_LOOKAHEAD + 1) % cfg.EPOCHS_PER_HISTORICAL_VECTOR ≠ 0)
+    (hmix : s'.randao_mixes = s.randao_mixes.set (get_current_epoch cfg s % cfg.EPOCHS_PER_HISTORICAL_VECTOR) x) :
+    get_seed cfg s' (get_current_epoch cfg s) d = get_seed cfg s (get_current_epoch cfg s) d := by
+  unfold get_seed get_randao_mix
+  generalize get_current_epoch cfg s = e at *
+  cases hu : u64 (e + cfg.EPOCHS_PER_HISTORICAL_VECTOR) "get_seed" with
+  | error err => rfl
+  | ok v =>
+    have hv : v = e + cfg.EPOCHS_PER_HISTORICAL_VECTOR := by
+      unfold u64 at hu; split at hu
+      · cases hu; rfl
+      · cases hu
+    subst hv
+    simp only [bind, Except.bind]
+    by_cases hlt : e + cfg.EPOCHS_PER_HISTORICAL_VECTOR < cfg.MIN_SEED_LOOKAHEAD + 1
+    · simp only [hlt, if_true]; rfl
+    · simp only [hlt, if_false]
+      by_cases h0 : cfg.EPOCHS_PER_HISTORICAL_VECTOR = 0
+      · simp only [h0, if_true]; rfl
+      · simp only [h0, if_false]
+        have hne := mod_shift_ne e cfg.EPOCHS_PER_HISTORICAL_VECTOR (cfg.MIN_SEED_LOOKAHEAD + 1) (by omega) hlook (by omega)
+        have hidx : (e + cfg.EPOCHS_PER_HISTORICAL_VECTOR - cfg.MIN_SEED_LOOKAHEAD - 1) = (e + cfg.EPOCHS_PER_HISTORICAL_VECTOR - (cfg.MIN_SEED_LOOKAHEAD + 1)) := by omega
+        rw [hidx, hmix]
+        unfold idx
+        rw [List.getElem?_set_ne (fun h => hne h.symm)]
 
 /-! ### (b) deposits -/
 
